@@ -10,11 +10,12 @@ RULE = ('documents: random trees over a 7-tag / 4-id / 3-class / 4-attribute voc
         'CDATA / PI nodes, several top-level nodes, detached fragments; selectors: random ASTs of the C01 grammar '
         '(type, universal, id, class, every attribute operator and flag, four combinators, lists, '
         ':not/:is/:where/:matches/:has nested, structural pseudo-classes) rendered to text, 30% of them containing an attribute selector derived from an attribute value present in the document (whole / prefix / suffix / piece / word / dash-prefix, case mangled, i/s flags); every case is run through the IR-level tie (PY-compiled IR -> matcher model) and the end-to-end tie (selector text -> parser model -> matcher model); queries: select from the '
-        'top, select from an inner element, match on elements. A case is non-trivial when some query returns a '
+        'top, select from an inner element, match on elements. In addition n/3 cases on documents with REPEATED CONTENT: 1-3 subtrees of a random tree are repeated elsewhere in the same document (under another parent, at another depth, at top level, inside themselves, in the same parent at another position; exact copies, copies wrapped in a fresh element, near-copies differing in one deep attribute / text node), so that distinct elements with equal name, attributes and content (== and equal hash for bs4) have different ancestors and siblings; 75% of their selectors are read off an actual path of the document (a chosen element, some of its ancestors, sometimes a preceding sibling, each described by its own type / id / class / attribute, joined by the combinators that hold: descendant, child, +, ~), used plain, as subject:not(path), :not(path), :is/:where/:matches(path), anchor:has(rest of path), :is(prefix) rest, path *, or in a list with a random selector; the rest are random ASTs. A case is non-trivial when some query returns a '
         'non-empty result; distinct = distinct (selector, tree) pairs among those.')
 
 
-def make_cases(rng, n):
+def make_cases(rng, n, stats=None):
+    stats = {} if stats is None else stats
     cases = []
     feats = {}
     while len(cases) < n:
@@ -41,11 +42,67 @@ def make_cases(rng, n):
                 queries.append(('match', enc.path_of(rng.choice(els)), 0))
                 queries.append(('match', enc.path_of(rng.choice(els)), 0))
             cases.append({'kind': kind, 'tree': top, 'detached': detached, 'selector': sel, 'queries': queries})
+    cases = cases[:n]
+    # repeated content: drawn from a generator of its own (seeded from `rng` after the cases above, which are unchanged)
+    import random
+    cases += make_repeat_cases(random.Random(rng.getrandbits(64)), n // 3, stats)
+    return cases
+
+
+def make_repeat_cases(rng, n, stats):
+    """Documents in which the same subtree occurs at several places (under different ancestors, at different depths,
+    at top level, inside itself, after different siblings; exact copies and near-copies), probed with selectors read
+    off actual paths of the document (descendant / child / sibling chains, plain, negated, inside :is/:where/:has) and
+    with random selectors.  Two distinct elements with equal name, attributes and content are indistinguishable to
+    bs4's == and hash; CSS designates elements, so each must be judged by its own ancestors and siblings."""
+    import enc
+    cases = []
+    feats = {}
+    stats.update({'documents': 0, 'cases': 0, 'path_selectors': 0, 'random_selectors': 0, 'grafts': {},
+                  'documents_with_equal_elements_in_different_parents': 0})
+    while len(cases) < n:
+        small = rng.random() < 0.6
+        kind, top = gen.gen_doc(rng, max_depth=rng.choice([2, 3]), fan=rng.choice([2, 3])) if small else gen.gen_doc(rng)
+        top, gs = gen.graft_copies(rng, top)
+        for k, v in gs.items():
+            stats['grafts'][k] = stats['grafts'].get(k, 0) + v
+        detached = rng.random() < 0.1
+        probe = gen.build_doc(kind, top, detached)
+        els = gen.elements(probe)
+        stats['documents'] += 1
+        # measured on the built document, with bs4's own notion of equality: two elements that are == and hash alike
+        # but have different parents
+        seen = {}
+        for e in els:
+            if e.contents:
+                seen.setdefault(e, set()).add(id(e.parent))
+        if any(len(v) > 1 for v in seen.values()):
+            stats['documents_with_equal_elements_in_different_parents'] += 1
+        chains = gen.elem_chains(top[:1 + next(i for i, t in enumerate(top) if t[0] == 'e')] if detached else top)
+        for _ in range(6):
+            if rng.random() < 0.75:
+                sel = gen.gen_path_sel(rng, top, chains, feats)
+                stats['path_selectors'] += 1
+            else:
+                sel = gen.gen_list(rng, 0, feats)
+                stats['random_selectors'] += 1
+            queries = [('select', [], 0)]
+            if els:
+                queries.append(('select', enc.path_of(rng.choice(els)), 0))
+                queries.append(('match', enc.path_of(rng.choice(els)), 0))
+                queries.append(('match', enc.path_of(rng.choice(els)), 0))
+            cases.append({'kind': kind, 'tree': top, 'detached': detached, 'selector': sel, 'queries': queries})
+    stats['cases'] = n
     return cases[:n]
 
 
 def run(chk):
-    return common_match.run(chk, PID, SOURCES, make_cases, 2400, 120000, RULE,
+    stats = {}
+    chk.coverage['repeated_content'] = stats
+
+    def mk(rng, n):
+        return make_cases(rng, n, stats)
+    return common_match.run(chk, PID, SOURCES, mk, 2400, 120000, RULE,
                             'SoupVerif.Properties.C01 (model ≡ specification) / correspondence PY select ≡ Model select')
 
 
